@@ -67,14 +67,14 @@ def ip4(s):
 def peer(name="p1", remote="10.0.0.2", localAS=65001, remoteAS=65002, hold=90,
          idleHold=sec(5), connRetry=sec(5), passive=False, localAddr="", port=179,
          caps=(), openReply=None, noHandler=False, handlerReplies=None,
-         estWrites=(), handlerWrites=None, remoteID="10.0.0.2"):
+         estWrites=(), handlerWrites=None, remoteID="10.0.0.2", gates=()):
     return {"name": name, "remote": remote, "localAS": localAS, "remoteAS": remoteAS,
             "hold": hold, "idleHold": idleHold, "connRetry": connRetry, "passive": passive,
             "localAddr": localAddr, "port": port,
             "caps": [{"code": c, "val": list(v)} for c, v in caps],
             "openReply": openReply, "noHandler": noHandler,
             "handlerReplies": handlerReplies or {}, "estWrites": [list(b) for b in estWrites],
-            "handlerWrites": handlerWrites or {}}
+            "handlerWrites": handlerWrites or {}, "gates": list(gates)}
 
 
 def step(op, **kw):
